@@ -251,6 +251,7 @@ func runC13(w *World, r *Report) {
 		}
 	}
 	checkDeclaredTreesDoNotConverge(w, r, "R1")
+	c13DiagnosisFreeCopyKeepsEndpoints(w, r)
 	r.Min("R1", 8)
 	r.Min("R2", 7)
 	r.Min("R3", 8)
@@ -308,4 +309,46 @@ func checkDeclaredTreesDoNotConverge(w *World, r *Report, rule string) {
 			return true
 		}(), rule, "convergence-flag/NewEndpointTree", ne.Pos(), "the endpoint (policy) tree is constructed without sibling convergence")
 	}
+}
+
+// c13DiagnosisFreeCopyKeepsEndpoints: the diagnosis-free copy of the policies
+// (the version the fail-safe switches to) clears diagnoses only: every endpoint
+// stays declared, so a literal endpoint keeps shadowing a wildcard or
+// parametric sibling for remedy selection.
+func c13DiagnosisFreeCopyKeepsEndpoints(w *World, r *Report) {
+	f := w.Fn(pkgConfig, "modifyIntoDiagnosisFreePoliciesConfig")
+	if f == nil {
+		r.Undec("R4", "modifyIntoDiagnosisFreePoliciesConfig", token.NoPos, "function not found")
+		return
+	}
+	n := 0
+	ok := true
+	var why []string
+	Instrs(f, func(in ssa.Instruction) {
+		c, isC := in.(*ssa.Call)
+		if !isC {
+			return
+		}
+		b, isB := c.Call.Value.(*ssa.Builtin)
+		if !isB || b.Name() != "append" || !strings.Contains(c.Type().String(), "EndpointConfig") {
+			return
+		}
+		n++
+		for _, cd := range CondsOf(c.Block()) {
+			p := Path(cd.V)
+			if rel, isRel := NormCond(cd); isRel && rel.Op == "<" && strings.Contains(Path(rel.R), "builtin.len(") {
+				continue // range index in bounds
+			}
+			if strings.HasPrefix(p, "next(range(") && strings.HasSuffix(p, "#0") && cd.Pol {
+				continue
+			}
+			ok = false
+			why = append(why, "endpoint kept only under "+trunc(p, 60))
+		}
+	})
+	var brk []string
+	for _, h := range loopHeadersOf(f) {
+		brk = append(brk, loopBreaks(h)...)
+	}
+	r.Check(n == 1 && ok && len(brk) == 0, "R4", "diagnosis-free-copy/keeps-every-endpoint", f.Pos(), "every endpoint of the loaded policies is appended to the diagnosis-free copy unconditionally (conditions %v, breaks %v)", why, brk)
 }
